@@ -320,6 +320,8 @@ def check_given(ctx, c):
         est, data, attr = _build(dict(c, estimator=e), docs, kw, V)
         est.fit(data)
     except Exception as ex:
+        if isinstance(ex, ValueError) and "empty" in str(ex) and not any(t in given for dd in docs for t in dd):
+            return ctx.skip("rejected input: no token of the corpus is in the supplied dictionary")
         viol("fit-raises/%s" % type(ex).__name__, "fit with a supplied dictionary raised %s: %s" % (type(ex).__name__, str(ex)[:150]))
         return
     d = dict(getattr(est, attr))
